@@ -17,9 +17,15 @@ RULE = ("obj cases: kind in {MACObj, EUI64Obj}; a 48/64-bit value that is bounda
         "short, one group long, a 1-digit group, a 3-digit group, mixed or foreign separators, 13/17 hex digits, one non-hex "
         "letter incl. 'x', 'X', 'g', full-width and Arabic-Indic digits, blanks / tab / newline before or after, '0x' prefix, "
         "the spelling of the other size, shifted separators, empty string). classify cases: macaddress.parse(word, MAC, EUI64) "
-        "as MACEUISearch calls it, on the same streams. formats cases: the model's templates against macaddress' class "
+        "as MACEUISearch calls it, on the same streams, together with str()/repr() of the MACEUISearch object. show cases: "
+        "str(obj) / repr(obj) of MACObj / EUI64Obj on every eighth obj text (valid or near miss). search cases: "
+        "MACEUISearch(word).search_all_formats(set of 0-3 regexes); the word is a spelling of a boundary-biased value (12% a near "
+        "miss), each regex a piece (whole text, prefix, suffix, 1-12 characters, also across byte boundaries) of the dash / colon / "
+        "Cisco / undelimited text of the same value, of a value one nibble away or of an unrelated value, in upper / lower / mixed "
+        "case, a quarter with characters replaced by the wildcard '.', some extended by one character, 3% empty; only regexes over "
+        "hex digits, '-', ':' and '.' are generated (the model implements that fragment of `re`). formats cases: the model's templates against macaddress' class "
         "attributes (the same templates are also a generated table, proved equal to the model's). non-trivial = an obj, classify "
-        "or xeq case with a non-empty text, distinct by request line. Only str "
+        "classify, xeq, show or search case with a non-empty text, distinct by request line. Only str "
         "arguments are generated (int/bytes/object arguments of the constructors are outside the property); lone "
         "surrogates are not generated.")
 LEVEL_TEXT = ("Theorems (Lean 4, all 2^48 / 2^64 values, all strings): every rendering is the lower-case two-hex-digit bytes of the "
@@ -30,7 +36,13 @@ LEVEL_TEXT = ("Theorems (Lean 4, all 2^48 / 2^64 values, all strings): every ren
               "(macaddress.parse(word, MAC, EUI64) of MACEUISearch): a word is classified as the 48-bit (64-bit) kind with value v iff "
               "the constructor of that kind accepts it with value v, iff it instantiates a template of that size - never both - and is "
               "rejected iff it instantiates none. == between any two of MACObj, EUI64Obj, plain EUI48, plain EUI64 built from accepted "
-              "texts is true iff same size and same address; the same integer in the other size is never equal. The model's templates, "
+              "texts is true iff same size and same address; the same integer in the other size is never equal. str(obj)/repr(obj) is '<MACObj T>' / '<EUI64Obj T>' with T the dash template "
+              "filled with the upper-case digits, T lower-cased is the dash rendering and T constructs the same value; "
+              "str(MACEUISearch(word)) names the word and the Cisco rendering of what it was classified as (or None); "
+              "search_all_formats(regexes) is true iff the word is an address and some regex is found in its dash, colon, Cisco or "
+              "undelimited text (regex fragment: hex digits, '-', ':' literal, '.' wildcard, re.I), any rendering used as the regex "
+              "finds every spelling of its address, and a metacharacter-free lower-case regex is found iff it is a substring of one "
+              "of the four texts. The model's templates, "
               "sizes and hex alphabet equal those of the installed macaddress package (generated table, decide). The model (templates as "
               "data, macaddress._parse narrowing loop, HWAddress.__str__, the split/f-string renderings, __eq__ on lower-cased dash "
               "text) is tied to MACObj/EUI64Obj by differential runs on every check.")
@@ -169,6 +181,22 @@ def mk_xeq(k1, f1, s1, k2, f2, s2, meta=None, origin="gen"):
             "req": wire.req("mac", "xeq", k1, f1, wire.enc_str(s1), k2, f2, wire.enc_str(s2)), "_origin": origin}
 
 
+def mk_show(kind, s, meta=None, origin="gen"):
+    """`str(obj)` / `repr(obj)` of a MACObj / EUI64Obj"""
+    return {"op": "show", "kind": kind, "s1": s, "meta": meta or {},
+            "req": wire.req("mac", "show", kind, wire.enc_str(s)), "_origin": origin}
+
+
+RX_ALPHABET = set("0123456789abcdefABCDEF-:.")
+
+
+def mk_search(word, rgxs, meta=None, origin="gen"):
+    """`MACEUISearch(word).search_all_formats(set(rgxs))`; every regex is made of hex digits, '-', ':' (literals) and '.'"""
+    rgxs = sorted(set(rgxs))
+    return {"op": "search", "s1": word, "rgxs": rgxs, "meta": meta or {},
+            "req": wire.req("mac", "search", wire.enc_str(word), wire.enc_strs(rgxs)), "_origin": origin}
+
+
 def mk_formats(kind):
     return {"op": "formats", "kind": kind, "meta": {}, "req": wire.req("mac", "formats", kind), "_origin": "gen"}
 
@@ -178,6 +206,10 @@ def from_corpus(c):
         return mk_classify(c["s1"], origin="corpus")
     if c.get("op") == "xeq":
         return mk_xeq(c["k1"], c["f1"], c["s1"], c["k2"], c["f2"], c["s2"], origin="corpus")
+    if c.get("op") == "show":
+        return mk_show(c["kind"], c["s1"], origin="corpus")
+    if c.get("op") == "search":
+        return mk_search(c["s1"], c["rgxs"], origin="corpus")
     return mk_obj(c["kind"], c["s1"], c.get("s2", ""), origin="corpus")
 
 
@@ -232,6 +264,51 @@ def _one_obj(rng, p_bad):
     return mk_obj(kind, s1, s2, meta)
 
 
+def _one_regex(nb, v, rng):
+    """a regex over hex digits, '-', ':' and '.': a piece of one of the four texts search_all_formats tries (dash, colon,
+    cisco, undelimited) of the value `v` or of a neighbour, in any letter case, possibly with some characters wildcarded"""
+    r = rng.random()
+    w = v
+    if r < 0.30:
+        w = v ^ (rng.randrange(1, 16) << (4 * rng.randrange(2 * nb)))       # one nibble away
+    elif r < 0.36:
+        w = rand_value(nb, rng)
+    tpl = rng.choice(TEMPLATES)
+    text = spell(nb, w, tpl, rng.choice(["upper", "lower", "lower", "mixed"]), rng)
+    r = rng.random()
+    if r < 0.25:
+        piece = text                                                        # the whole text
+    elif r < 0.35:
+        piece = text[:rng.randrange(1, len(text))]                          # a prefix
+    elif r < 0.45:
+        piece = text[rng.randrange(1, len(text)):]                          # a suffix
+    else:
+        a = rng.randrange(len(text))
+        piece = text[a:a + rng.choice([1, 2, 3, 4, 5, 6, 8, 12])]
+    if rng.random() < 0.25:
+        piece = "".join("." if rng.random() < 0.3 else ch for ch in piece)
+    r = rng.random()
+    if r < 0.03:
+        piece = ""
+    elif r < 0.08:
+        piece = piece + rng.choice("0f-:.")
+    elif r < 0.12:
+        piece = rng.choice("0f-:.") + piece
+    return piece
+
+
+def _one_search(rng):
+    kind = rng.choice(["mac", "mac", "eui64"])
+    nb = KINDS[kind]
+    v = rand_value(nb, rng)
+    word = spell(nb, v, rng.choice(TEMPLATES), rng.choice(["upper", "lower", "mixed"]), rng)
+    tag = "valid"
+    if rng.random() < 0.12:
+        word, tag = malform(word, nb, rng)
+    rgxs = [_one_regex(nb, v, rng) for _ in range(rng.choice([0, 1, 1, 1, 1, 2, 3]))]
+    return mk_search(word, rgxs, {"tag": tag, "value": v})
+
+
 def cases(rng, tier):
     if tier != "search":
         for k in KINDS:
@@ -281,6 +358,12 @@ def cases(rng, tier):
         yield c
         if i % 5 == 0:
             yield mk_classify(c["s1"], {"tag": c["meta"].get("tag", "valid")})
+        if i % 8 == 1:
+            # str() / repr() of the object built from the same text (valid or near miss)
+            yield mk_show(c["kind"], c["s1"], {"tag": c["meta"].get("tag", "valid")})
+    # macgrep's search: MACEUISearch(word).search_all_formats({regex, ...})
+    for i in range({"quick": 1500, "thorough": 60000, "search": 600}[tier]):
+        yield _one_search(rng)
 
 
 def neighbours(case, rng):
@@ -300,6 +383,16 @@ def neighbours(case, rng):
         t = "".join(t)
         if case["op"] == "classify":
             yield mk_classify(t)
+        elif case["op"] == "show":
+            yield mk_show(case["kind"], t)
+        elif case["op"] == "search":
+            if rng.random() < 0.5:
+                yield mk_search(t, case["rgxs"])
+            else:
+                g = rng.choice(case["rgxs"] or [""])
+                j = rng.randrange(len(g) + 1)
+                g2 = g[:j] + rng.choice("0123456789abcdefABCDEF-:.") + g[j + rng.choice([0, 1]):]
+                yield mk_search(s, [g2] + [x for x in case["rgxs"] if x != g])
         elif case["op"] == "xeq":
             yield mk_xeq(case["k1"], case["f1"], t, case["k2"], case["f2"], case["s2"])
         else:
@@ -307,12 +400,12 @@ def neighbours(case, rng):
 
 
 def nontrivial(case):
-    return case["op"] in ("obj", "classify", "xeq") and case["s1"] != ""
+    return case["op"] in ("obj", "classify", "xeq", "show", "search") and case["s1"] != ""
 
 
 def describe(case):
     d = {"op": case["op"]}
-    for k in ("kind", "k1", "f1", "s1", "k2", "f2", "s2"):
+    for k in ("kind", "k1", "f1", "s1", "k2", "f2", "s2", "rgxs"):
         if k in case:
             d[k] = case[k]
     return d
@@ -335,7 +428,11 @@ def buckets(case, ans):
             if len(f) > 12 and f[12] in ("T", "F"):
                 out.append("eq:" + f[12])
     elif case["op"] == "classify":
-        out.append("classify:" + ans.split(" ")[0])
+        out.append("classify:" + ans.split("|")[0].split(" ")[0])
+    elif case["op"] == "show":
+        out.append("show:%s:%s" % (case["kind"], "ok" if ans.startswith("ok") else ans))
+    elif case["op"] == "search":
+        out.append("search:%s:%s:%d regexes" % (m.get("tag", "?") if m.get("tag") == "valid" else "malformed", ans, len(case["rgxs"])))
     elif case["op"] == "xeq":
         out.append("xeq:%s%s==%s%s:%s" % (case["k1"], case["f1"], case["k2"], case["f2"], ans.split("|")[0]))
         out.append("xeq-second:" + m.get("rel", "?"))
@@ -359,11 +456,25 @@ def impl(case):
         return str(raw.size) + "|" + wire.enc_strs(raw.formats)
     if case["op"] == "classify":
         from ciscoconfparse2.cli_script import MACEUISearch
-        r = MACEUISearch(case["s1"]).mac_retval
+        srch = MACEUISearch(case["s1"])
+        r = srch.mac_retval
         if r is None:
+            head = "err:ValueError"
+        else:
+            head = ("EUI48" if isinstance(r, MACObj) else "EUI64") + " " + str(int(r))
+        # str() / repr() of the search object name the word and the Cisco rendering of what was found
+        return head + "|" + wire.enc_str(str(srch)) + "|" + wire.enc_str(repr(srch))
+    if case["op"] == "show":
+        cls = MACObj if case["kind"] == "mac" else EUI64Obj
+        try:
+            obj = cls(case["s1"])
+        except ValueError:
             return "err:ValueError"
-        name = "EUI48" if isinstance(r, MACObj) else "EUI64"
-        return name + " " + str(int(r))
+        return "ok|" + wire.enc_str(str(obj)) + "|" + wire.enc_str(repr(obj))
+    if case["op"] == "search":
+        from ciscoconfparse2.cli_script import MACEUISearch
+        assert all(set(g) <= RX_ALPHABET for g in case["rgxs"])
+        return "T" if MACEUISearch(case["s1"]).search_all_formats(set(case["rgxs"])) else "F"
     if case["op"] == "xeq":
         mk = {("mac", "w"): MACObj, ("eui64", "w"): EUI64Obj, ("mac", "p"): macaddress.EUI48, ("eui64", "p"): macaddress.EUI64}
         try:
@@ -439,7 +550,45 @@ def oracle(case, ans):
     if case["op"] == "classify":
         v48, v64 = ref_value("mac", case["s1"]), ref_value("eui64", case["s1"])
         want = "EUI48 %d" % v48 if v48 is not None else "EUI64 %d" % v64 if v64 is not None else "err:ValueError"
-        return [] if ans == want else [f"classification is {ans[:60]} expected {want}"]
+        f = ans.split("|")
+        if f[0] != want:
+            return [f"classification is {ans[:60]} expected {want}"]
+        found = ("MAC " + ref_renderings(6, v48)["cisco"] if v48 is not None
+                 else "EUI64 " + ref_renderings(8, v64)["cisco"] if v64 is not None else "None")
+        text = "<MACEUISearch word: %s, found: %s>" % (case["s1"], found)
+        fails = []
+        for name, got in (("str", f[1]), ("repr", f[2])):
+            if wire.dec_str(got) != text:
+                fails.append(f"{name}(MACEUISearch(word)) is {wire.dec_str(got)[:80]!r}, expected {text[:80]!r}")
+        return fails
+    if case["op"] == "show":
+        kind, nb = case["kind"], KINDS[case["kind"]]
+        v = ref_value(kind, case["s1"])
+        if v is None:
+            return [] if ans == "err:ValueError" else [f"text that is not a {8 * nb}-bit address accepted: {ans[:60]}"]
+        if ans.startswith("err"):
+            return [f"well-formed address rejected with {ans}"]
+        # `<MACObj 01-23-45-67-89-AB>`: the class name and the canonical text of macaddress (upper-case dash form)
+        text = "<%s %s>" % ("MACObj" if kind == "mac" else "EUI64Obj", ref_renderings(nb, v)["dash"].upper())
+        f = ans.split("|")
+        fails = []
+        for name, got in (("str", f[1]), ("repr", f[2])):
+            if wire.dec_str(got) != text:
+                fails.append(f"{name}(obj) is {wire.dec_str(got)!r}, expected {text!r}")
+            inner = wire.dec_str(got).split(" ")[-1].rstrip(">")
+            if ref_value(kind, inner) != v:
+                fails.append(f"the address shown by {name}(obj), {inner!r}, does not denote {v:x}")
+        return fails[:3]
+    if case["op"] == "search":
+        v48, v64 = ref_value("mac", case["s1"]), ref_value("eui64", case["s1"])
+        if v48 is None and v64 is None:
+            want = False           # not an address: nothing to search
+        else:
+            rend = ref_renderings(6, v48) if v48 is not None else ref_renderings(8, v64)
+            texts = [rend["dash"], rend["colon"], rend["cisco"], rend["dash"].replace("-", "")]
+            want = any(re.search(g, t, re.I) for g in case["rgxs"] for t in texts)
+        return [] if ans == ("T" if want else "F") else [
+            f"search_all_formats({case['rgxs']!r}) on word {case['s1']!r} is {ans}, expected {'T' if want else 'F'}"]
     if case["op"] == "xeq":
         v1, v2 = ref_value(case["k1"], case["s1"]), ref_value(case["k2"], case["s2"])
         if v1 is None or v2 is None:
